@@ -4,7 +4,7 @@ import UrcuVerif.Src.SyncLocal
 # Grace-period updater (memb / mb): event abstraction, list-oracle discipline, proof rules
 
 (the refinement theorems themselves are in `Src/SyncScan.lean` (reader_state, scan loop, `wait_for_readers`) and
-`Src/SyncGp.lean` (`smp_mb_master`, `wait_gp`, `synchronize_rcu`); final statements in `Props/SrcSync.lean`.)
+`Src/SyncGp.lean` (`smp_mb_master`, `wait_gp`, generated `wait_for_readers`), `Src/SyncSync.lean` (`synchronize_rcu`); final statements in `Props/SrcSync.lean`.)
 
 ## The checker `absRun`
 
@@ -26,7 +26,7 @@ checked event by event against the abstract lists of `ls` (reader `i`'s record i
   period starts (pc `idle`), ↦ `ls.inp` during pass 1, `&cur_snap_readers` ↦ `ls.snap` during pass 2;
 * `cds_list_for_each_entry_safe.first(h)` answers `0` or a MEMBER of that list, `….next(h, index)` answers `0` or a member
   different from `index` (this is all the refinement needs; a real list, enumerated in order with the `safe` lookahead,
-  answers like that when it has no duplicates: `succOf_disc`);
+  answers like that when it has no duplicates: `Props.SrcSync.first_disc`, `succOf_disc`);
 * `cds_list_move(&index->node, dest)` has to be the move announced by the classification just made (`pend`);
 * a word loaded from `index->ctr` is a non-negative integer; `membarrier()` returns 0 and `urcu_die()` does not return;
 * the lists change behind the updater's back only while `rcu_registry_lock` is not held: at every
